@@ -193,7 +193,11 @@ inline std::vector<double> gen_weights(int m, WDom dom, int tie_bias, bool int_s
     }
     // exact domain
     int pal;
-    if (coin(tie_bias)) pal = pick(0, 3) == 3 ? 8 : pick(0, 2); else pal = pick(3, int_safe ? 5 : 7);
+    if (coin(tie_bias)) pal = pick(0, 3) == 3 ? 8 : pick(0, 2);
+    else if (int_safe) { static const int ip[] = {3, 4, 5, 11, 11}; pal = ip[pick(0, 4)]; }
+    else { static const int dp[] = {3, 4, 5, 6, 7, 9, 9, 10, 10, 11, 11}; pal = dp[pick(0, 10)]; }
+    if (!int_safe && pal <= 2 && coin(8)) pal = 9;   // tie-heavy and tiny at once
+    if (pal == 10 && m > 64) pal = 9;                // the fine-grained palette is only exactly summable on small graphs
     for (int i = 0; i < m; i++) {
         double x = 1;
         switch (pal) {
@@ -206,6 +210,9 @@ inline std::vector<double> gen_weights(int m, WDom dom, int tie_bias, bool int_s
             case 6: x = std::ldexp((double) pick(1, 4096), -pick(0, 10)); break;  // dyadic
             case 7: x = (double) pick(1, 1 << 30); break;
             case 8: x = pick(1, 4); break;
+            case 11: { static const int fib[] = {1, 2, 3, 5, 8, 13, 21, 34, 55}; x = fib[pick(0, 8)]; break; }   // wide range, few ties, many equal sums
+            case 9: x = std::ldexp((double) pick(1, 3), -60); break;                        // uniformly tiny, still exactly summable
+            case 10: x = std::ldexp((double) pick(1, 2), -16) + std::ldexp((double) pick(0, 3), -52); break;  // differences of one ulp of 1.0; all sums stay < 1 and exact (m <= 64)
         }
         w[i] = x;
     }
@@ -288,7 +295,10 @@ inline GraphSpec gen_graph_raw(const GenOpts &o, WDom dom) {
     bool int_safe = (dom == WDom::ExactInt);
     g.w = gen_weights(g.m(), int_safe ? WDom::Exact : dom, o.tie_bias, int_safe);
     if ((dom == WDom::Exact || dom == WDom::ExactInt) && coin(70)) {
-        for (int i = 0; i < g.m(); i++) if (sb.pref[i] > 0) g.w[i] = sb.pref[i];   // shape-specific weights where the shape defines them
+        bool small_scale = false;   // tiny / fine-grained palettes must not be mixed with weights of magnitude 1..1000
+        for (double w : g.w) if (w < 0.001 || w != std::floor(w * 1024) / 1024) small_scale = true;
+        if (!small_scale)
+            for (int i = 0; i < g.m(); i++) if (sb.pref[i] > 0) g.w[i] = sb.pref[i];   // shape-specific weights where the shape defines them
     }
     if (coin(60)) permute_spec(g);
     return g;
